@@ -11,7 +11,7 @@ of the call inventory against GIT_AI_VERIF_TRACE → search when a tie broke.
 import concurrent.futures, json, os, random, sys, time, traceback
 
 from vlib import common as C, e2e
-from vlib.props import c06_util as U
+from vlib.props import c06_util as U, c06_sig as SIG, c06_hooks as HK
 
 PROP = "C06"
 THEOREMS = [
@@ -26,6 +26,16 @@ THEOREMS = [
     "GitAi.C06.demoHooks_wf",
     "GitAi.C06.witness_unconfined_post_hook",
     "GitAi.C06.witness_post_exit_overrides_status",
+    "GitAi.C06.exit_shape_holds",
+    "GitAi.C06.signal_death_mirrored",
+    "GitAi.C06.exit_code_mirrored",
+    "GitAi.C06.status_mirrored",
+    "GitAi.C06.witness_fixed_list_fails_sigpipe",
+    "GitAi.C06.sigpipe_mirrored_iff_reset",
+    "GitAi.C06.user_hooks_table_ok",
+    "GitAi.C06.user_hooks_run_exactly_once_partial",
+    "GitAi.C06.witness_default_dir_hooks_dead",
+    "GitAi.C06.witness_skip_without_forward_check",
 ]
 CORPUS = os.path.join(C.VERIF, "corpus", "C06", "cases.jsonl")
 ALIASES = {"ci": "commit", "st": "status -s", "lg": "log --oneline -3", "unstage": "reset HEAD --", "sh": "!echo shell-alias",
@@ -337,7 +347,7 @@ class Walk:
         st["tags"] = ["cmd:" + kind]
         # global options / invocation context
         if kind not in ("clone", "invalid", "help") and rng.random() < 0.4:
-            g = rng.randrange(9)
+            g = rng.randrange(10)
             if g == 0:
                 st["argv"], st["cwd"] = ["-C", "<REPO>"] + a, "<TW>"
                 st["tags"].append("global:-C")
@@ -365,9 +375,13 @@ class Walk:
             elif g == 7:
                 st["argv"] = [rng.choice(["-p", "--paginate", "--no-optional-locks", "--literal-pathspecs", "--no-replace-objects"])] + a
                 st["tags"].append("global:flag")
-            else:
+            elif g == 8:
                 st["argv"] = ["-C", "d", "-C", ".."] + a
                 st["tags"].append("global:-C-C")
+            else:
+                # the user's own hooks-path override (here: naming the directory git would use anyway) travels into git-ai's internal calls
+                st["argv"], st["cwd"] = ["-c", "core.hooksPath=<GITDIR>/hooks"] + a, st.get("cwd", "")
+                st["tags"].append("global:-c-core.hooksPath")
         return st
 
     def run(self, length):
@@ -499,6 +513,47 @@ def phase_corpus(res):
     return traces
 
 
+def merge(res, r2):
+    res.obligations += r2.obligations
+    res.evaluations += r2.evaluations
+    res.distinct |= r2.distinct
+    for k, v in r2.tags.items():
+        res.tags[k] = res.tags.get(k, 0) + v
+    res.samples += r2.samples[:2]
+    for k, v in r2.known.items():
+        res.known[k] = res.known.get(k, 0) + v
+    res.violations += r2.violations
+    res.broken += r2.broken
+    for k, v in r2.extra.get("e2e", {}).items():
+        res.extra.setdefault("e2e", {})[k] = v
+
+
+def check_exit_tables(res, inv):
+    """the exit / user-hook tables compiled into the driver (the ones the theorems were checked against) are the ones extracted now"""
+    x = (inv or {}).get("exit_hooks")
+    if x is None:
+        return
+    try:
+        d = C.run_driver([{"op": "wrap_exit_tables"}])[0]
+    except Exception as e:
+        res.obligation("driver tables = extracted exit / user-hook tables", False, "correspondence")
+        res.broken_tie("exit-tables-driver", repr(e)[:500])
+        return
+    conj = lambda c: [[a, bool(v)] for a, v in c]
+    want = {"resets": ["dying" if r[0] == "dying" else list(r[1]) for r in x["resets"]], "raises": x["raises"], "unreachable": x["unreachable"],
+            "else_exits_code": x["else_exits_code"], "forwarded": x["forwarded"], "uninstalled": x["uninstalled"],
+            "other_signal_sites": x["other_signal_sites"], "early_returns": [conj(c) for c in x["early_returns"]],
+            "managed_guard": conj(x["managed_guard"]), "managed_failure_returns": x["managed_failure_returns"], "tail_forwards": x["tail_forwards"],
+            "none_when": [conj(c) for c in x["none_when"]], "fallback_null": x["fallback_null"], "same_forward_resolver": x["same_forward_resolver"],
+            "inject_when": conj(x["inject_when"]), "child_skip_env": x["child_skip_env"]}
+    diff = {k: {"extracted": v, "driver": d.get(k)} for k, v in want.items() if d.get(k) != v}
+    res.obligation("driver tables = extracted exit / user-hook tables", not diff, "correspondence")
+    if diff:
+        res.broken_tie("exit-tables-driver", diff)
+    res.extra.setdefault("inventory", {})["exit_hooks"] = {"resets": want["resets"], "early_returns": want["early_returns"], "none_when": want["none_when"],
+                                                           "user_hooks_ok_in_model": d.get("user_hooks_ok")}
+
+
 def run(tier, seed):
     res = C.Result(PROP, tier, seed)
     res.level = "proof"
@@ -518,7 +573,13 @@ def run(tier, seed):
         "step from token patterns to concrete argv is checked per traced call, dynamic tokens are assumed to be revisions/paths, not options",
         "wrapper mode only: sites gated by managed-hooks mode (is_repo_hooks_enabled) are reviewed but excluded (C13); telemetry / background self-spawns, sqlite "
         "DBs under ~/.git-ai and the object store are outside U",
-        "stdout is compared, stderr is not (debug builds log to stderr); TTY behaviour (post-commit attribution summary), signals and timing are observed only",
+        "stdout is compared, stderr is not (debug builds log to stderr); TTY behaviour (post-commit attribution summary) and timing are observed only",
+        "exit mirroring: the signal mask of the wrapper is assumed empty and the Rust runtime's start-up dispositions (SIGPIPE ignored, SIGSEGV/SIGBUS handled) and "
+        "std::process::Command's reset of SIGPIPE in the child are facts about std, exercised by the termination twin run; an aliased builtin dying by SIGPIPE is exit "
+        "code 141 under plain git 2.39 (it runs the alias as a child) and death by signal 13 under the proxy (DESIGN O10: the wrapper expands aliases itself) — "
+        "compared on the shell-visible status",
+        "user hooks: one hook event is modelled (git's rule: the last `-c core.hooksPath=` > local > global > .git/hooks); `git-hooks ensure` is assumed to have run after "
+        "the user's hooks were put in place (a hook added later is linked by the next ensure / self-heal); hooks-only mode (plain git on an ensured repository) is C13's",
         "argv-level deviations for meta options (--html-path…, options after --help/--version) and alias edge cases are C18's findings and not generated here",
     ]
     inv = U.phase_extract(res)
@@ -530,19 +591,45 @@ def run(tier, seed):
         return res.finish()
     if "--replay" in sys.argv:
         j = json.load(open(sys.argv[sys.argv.index("--replay") + 1]))
-        steps = j.get("witness", j).get("steps")
+        w = j.get("witness", j)
+        if "sigcase" in w:
+            SIG.replay(res, w["sigcase"])
+            return res.finish()
+        if "hookcase" in w:
+            HK.replay(res, w["hookcase"])
+            return res.finish()
+        steps = w.get("steps")
         fl, _ = replay_steps(steps)
         report(res, {"failures": fl, "steps": steps, "seed": None}, "replay", do_shrink=False)
         return res.finish()
+    check_exit_tables(res, inv)
     traces = phase_corpus(res)
-    n, length = (64, 24) if tier == "quick" else (700, 32)
-    tr, nfail = phase_walks(res, [seed * 100000 + i for i in range(n)], length)
+    n, length = (56, 24) if tier == "quick" else (700, 32)
+    # the termination and user-hook twin runs are cheap and mostly wait for child processes: they share the machine with the walks
+    r_sig, r_hk = C.Result(PROP, tier, seed), C.Result(PROP, tier, seed)       # private recorders, merged below (Result is not thread-safe)
+    with concurrent.futures.ThreadPoolExecutor(2) as side:
+        f_sig = side.submit(SIG.phase_signals, r_sig, tier, seed)
+        f_hk = side.submit(HK.phase_hooks, r_hk, tier, seed)
+        tr, nfail = phase_walks(res, [seed * 100000 + i for i in range(n)], length)
+        f_sig.result()
+        f_hk.result()
+    merge(res, r_sig)
+    merge(res, r_hk)
     traces += tr
     U.validate_trace(res, inv, traces, "trace")
     # a tie broke (extraction / theorem / inventory-vs-trace) and no oracle failed yet: search further on the implementation
     if res.broken and not res.violations:
         extra = 40 if tier == "quick" else 300
         tr2, nf2 = phase_walks(res, [seed * 100000 + 50000 + i for i in range(extra)], length + 8)
-        res.extra["search"] = (f"a tie broke; {extra} additional longer twin-run scenarios were executed: "
-                               + ("a failing input was found" if nf2 else "no failing input found"))
+        # and the two targeted twin runs again with other seeds / the thorough generators
+        nf3 = 0
+        for k in (1, 2):
+            nf3 += SIG.phase_signals(res, "thorough", seed * 31 + k)[0]
+            if not nf3:
+                nf3 += HK.phase_hooks(res, "quick", seed * 31 + k)[0]
+            if nf3:
+                break
+        res.obligations = [o for i, o in enumerate(res.obligations) if o not in res.obligations[:i]]
+        res.extra["search"] = (f"a tie broke; {extra} additional longer twin-run scenarios and further termination / user-hook twin runs were executed: "
+                               + ("a failing input was found" if (nf2 or nf3) else "no failing input found"))
     return res.finish()
